@@ -533,18 +533,22 @@ class EndpointResponseHandlerGenerator:
         declared_codes = {r.status_code.upper() for r in op.responses}
         if not default_returns or "4XX" in declared_codes:
             context.add_import(f"{context.core_package_name}.exceptions", "ClientError")
+            context.add_import(f"{context.core_package_name}.exceptions", "response_text")
             writer.write_line("case _ if 400 <= response.status_code < 500:")
             writer.indent()
             writer.write_line(
-                "raise ClientError(response=response, message=response.text, status_code=response.status_code)"
+                "raise ClientError("
+                "response=response, message=response_text(response), status_code=response.status_code)"
             )
             writer.dedent()
         if not default_returns or "5XX" in declared_codes:
             context.add_import(f"{context.core_package_name}.exceptions", "ServerError")
+            context.add_import(f"{context.core_package_name}.exceptions", "response_text")
             writer.write_line("case _ if 500 <= response.status_code < 600:")
             writer.indent()
             writer.write_line(
-                "raise ServerError(response=response, message=response.text, status_code=response.status_code)"
+                "raise ServerError("
+                "response=response, message=response_text(response), status_code=response.status_code)"
             )
             writer.dedent()
 
